@@ -86,8 +86,8 @@ impl Check for C13 {
     fn plan(&self, tier: Tier) -> Vec<Section> {
         match tier {
             Tier::Quick => vec![
-                Section { name: "small-maps-every-cut", runs: 200 },
-                Section { name: "large-maps-boundary-cuts", runs: 400 },
+                Section { name: "small-maps-every-cut", runs: 500 },
+                Section { name: "large-maps-boundary-cuts", runs: 1_000 },
             ],
             Tier::Thorough => vec![
                 Section { name: "small-maps-every-cut", runs: 6_000 },
